@@ -24,7 +24,7 @@ def add_end_covers(text):
 
 
 def define(g, name, crate, file, module, harness_file, properties, entries, params, assumptions, unverified,
-           features=None, kani_args=None, extra_appends=None, tiers=None):
+           features=None, kani_args=None, extra_appends=None, tiers=None, quick_elsewhere=None):
     """entries: list of (harness fn, obligation text, [(file,item)...], covers|None, [props], mode, bound_fn(params)->str, tiers|None)
     params(tier) -> dict of @KEY@ substitutions."""
     g["NAME"] = name
@@ -40,6 +40,8 @@ def define(g, name, crate, file, module, harness_file, properties, entries, para
         g["KANI_ARGS"] = kani_args
     if tiers:
         g["TIERS"] = tiers
+    if quick_elsewhere:
+        g["QUICK_ELSEWHERE"] = quick_elsewhere
 
     def splice(sess, tier):
         t = read(os.path.join(VERIF, "units/harness", harness_file))
